@@ -576,6 +576,23 @@ func run(c *engine.Ctx) {
 
 	all := items(maxLen)
 
+	if c.Quick() {
+		// a slice of the three-step chains for the quick tier: two credential consuming authenticators followed by
+		// anonymous, fallback flags at their catalogue default (a rejection in the middle must not be forgotten
+		// because an earlier step merely found no credentials)
+		for _, x := range []string{"jwt", "basic", "generic", "oauth2"} {
+			for _, y := range []string{"jwt", "basic", "generic", "oauth2"} {
+				if x == y {
+					continue
+				}
+
+				for _, fy := range []string{"proto-off", "rule-on"} {
+					all = append(all, []Step{{x, "proto-off"}, {y, fy}, {"anon", "-"}})
+				}
+			}
+		}
+	}
+
 	var mine []int
 
 	for i := range all {
